@@ -20,6 +20,9 @@ TRUSTED = ["CPython codecs: decoding / encoding of utf-8, latin-1, cp1251, cp125
            "compared with the model's lines_keep / lstrip / parse_int on generated strings",
            "codecs.StreamReader.readline returns the lines of str.splitlines(keepends=True) of the decoded stream (exercised on "
            "every generated file, incl. lines longer than its 72-character chunks)"]
+TRUSTED.append("translator tie: the reading harness/translate_reader.py gives its accepted Python subset and the runtime "
+               "coq/theories/ReaderRt.v (state-and-exception monad, exception classes, codecs readline as a list of lines, "
+               "fuel for while); the interpreter's str methods are the model functions named in TextFile.v / Reader.v")
 ASSUMES = ["C19_plain / C19_prefix: the password is accepted by check_valid, is not $HEX[...]-shaped (such passwords can only be "
            "written in hex form) and every code point the line iteration splits on is rejected by check_valid (side condition "
            "C19_linebreaks_rejected on the regenerated constants)",
@@ -397,6 +400,8 @@ def run(ctx):
     groups = primitive_cases(rng, ctx.scale(120, 600))
     groups.append(("read", "read_case", "check_read", read_cases))
     corr, bad = T.run_shards("C19", groups, per=60)
+    import reader_tie
+    corr += reader_tie.obligations()
     rule = ("logical lists (words, digits, walks, years, context strings, e-mails, sites, non-ASCII per encoding, spaces, $HEX "
             "look-alikes, every probed line-break / white-space character the encoding can represent, a sample of format "
             "characters, duplicates) x {plain, all-hex, per-line mixed, plain CRLF, count-prefixed} x {utf-8, latin-1, cp1251, "
